@@ -442,6 +442,10 @@ class HyASTCompiler:
                         expr, "`unpack-mapping` takes exactly one argument")
                 ret += self.compile(expr[1])
                 if dict_display:
+                    if len(compiled_exprs) % 2:
+                        raise self._syntax_error(
+                            expr,
+                            "`unpack-mapping` can't be the value of a key in a dictionary literal")
                     compiled_exprs.append(None)
                     compiled_exprs.append(ret.force_expr)
                 elif with_kwargs:
